@@ -94,3 +94,23 @@ impl core::ops::Deref for Bytes {
     #[verifier::external_body]
     fn deref(&self) -> (r: &[u8]) ensures r@ == self@ { unimplemented!() }
 }
+impl Clone for Bytes {
+    #[verifier::external_body]
+    fn clone(&self) -> (r: Bytes) ensures r@ == self@ { unimplemented!() }
+}
+impl core::convert::From<Bytes> for BytesMut {
+    #[verifier::external_body]
+    fn from(b: Bytes) -> (r: BytesMut) ensures r@ == b@ { unimplemented!() }
+}
+impl core::convert::From<&[u8]> for BytesMut {
+    #[verifier::external_body]
+    fn from(b: &[u8]) -> (r: BytesMut) ensures r@ == b@ { unimplemented!() }
+}
+impl core::convert::From<BytesMut> for Bytes {
+    #[verifier::external_body]
+    fn from(b: BytesMut) -> (r: Bytes) ensures r@ == b@ { unimplemented!() }
+}
+impl core::convert::From<Vec<u8>> for Bytes {
+    #[verifier::external_body]
+    fn from(b: Vec<u8>) -> (r: Bytes) ensures r@ == b@ { unimplemented!() }
+}
